@@ -154,17 +154,14 @@ Proof.
   destruct c as [[] [] [] [] [] [] [] []]; try reflexivity; discriminate.
 Qed.
 
-Lemma own_props_all body : forallb is_prop_obj (own_props body) = true.
-Proof. unfold own_props. induction body as [|c r IH]; [reflexivity|]. destruct c; cbn [flat_map app forallb is_prop_obj]; auto. Qed.
-
 Definition wrap_media (name : oname) (mb : obj) : list obj :=
   match mb with
-  | OBlock mname mprops minner => if Nat.eqb (length (mprops ++ minner)) 0 then [] else [OBlock mname [] [OBlock name mprops minner]]
+  | OBlock mname mprops minner => if Nat.eqb (length (printable mprops ++ minner)) 0 then [] else [OBlock mname [] [OBlock name mprops minner]]
   | _ => []
   end.
 Definition merge_into (name : oname) (mb : obj) : list obj :=
   match mb with
-  | OBlock mname mprops minner => if Nat.eqb (length (mprops ++ minner)) 0 then [] else [OBlock (merge_media name mname) mprops minner]
+  | OBlock mname mprops minner => if Nat.eqb (length (printable mprops ++ minner)) 0 then [] else [OBlock (merge_media name mname) mprops minner]
   | _ => []
   end.
 
@@ -175,7 +172,7 @@ Lemma wrap_media_ok me mb :
 Proof.
   destruct mb as [| [[] [|[|t p] ps]|s] mp mi | |]; try discriminate. cbn [media_nf]. intros H.
   apply andb_true_iff in H as [H Hmi]. apply andb_true_iff in H as [Ht Hmp].
-  cbn [wrap_media]. destruct (mp ++ mi) as [|x l] eqn:E.
+  cbn [wrap_media]. rewrite (printable_id mp Hmp). destruct (mp ++ mi) as [|x l] eqn:E.
   - apply app_eq_nil in E as [-> ->]. cbn. split; [constructor|reflexivity].
   - cbn [length Nat.eqb]. split.
     + constructor; [|constructor]. cbn [media_nf forallb plain_tree]. rewrite Ht, plain_tree_all, Hmp, Hmi. reflexivity.
@@ -190,7 +187,7 @@ Lemma merge_into_ok name sp mb :
 Proof.
   intros (rest & ->). destruct mb as [| [[] [|[|t p] ps]|s] mp mi | |]; try discriminate. cbn [media_nf]. intros H.
   apply andb_true_iff in H as [H Hmi]. apply andb_true_iff in H as [Ht Hmp].
-  cbn [merge_into]. destruct (mp ++ mi) as [|x l] eqn:E.
+  cbn [merge_into]. rewrite (printable_id mp Hmp). destruct (mp ++ mi) as [|x l] eqn:E.
   - apply app_eq_nil in E as [-> ->]. cbn. split; [constructor|reflexivity].
   - cbn [length Nat.eqb]. split.
     + constructor; [|constructor]. unfold merge_media.
@@ -284,17 +281,17 @@ Proof.
         destruct t as [|c t']; [reflexivity|]. destruct c as [[] [] [] [] [] [] [] []]; try reflexivity; discriminate. }
       assert (p' = Some me) as Hp' by (unfold p'; now rewrite Hsc). rewrite Hp' in *. cbv zeta. cbn [psel] in P5.
       assert (flat_map (fun mb => match mb with
-                | OBlock mname mprops minner => if Nat.eqb (length (mprops ++ minner)) 0 then [] else [OBlock mname [] [OBlock (ONIdent false me) mprops minner]]
+                | OBlock mname mprops minner => if Nat.eqb (length (printable mprops ++ minner)) 0 then [] else [OBlock mname [] [OBlock (ONIdent false me) mprops minner]]
                 | _ => [] end) medias = flat_map (wrap_media (ONIdent false me)) medias) as -> by reflexivity.
       destruct (flat_map_wrap me medias (psel parent) P3) as (W1 & W2).
       eexists. split; [reflexivity|]. cbn [node_result].
-      exists (if Nat.eqb (length (props ++ blocks)) 0 then [] else [OBlock (ONIdent false me) props blocks]),
+      exists (if Nat.eqb (length (printable props ++ blocks)) 0 then [] else [OBlock (ONIdent false me) props blocks]),
              (flat_map (wrap_media (ONIdent false me)) medias).
       rewrite Hmf. split; [reflexivity|]. split; [|split; [exact W1|split]].
-      * destruct (props ++ blocks) as [|x l] eqn:E; [constructor|]. cbn [length Nat.eqb]. constructor; [|constructor].
+      * rewrite P1, (printable_id _ (own_props_all body)), <- P1. destruct (props ++ blocks) as [|x l] eqn:E; [constructor|]. cbn [length Nat.eqb]. constructor; [|constructor].
         cbn [plain_tree]. rewrite plain_tree_all. rewrite P1, own_props_all.
         apply forallb_forall. intros o Ho. exact (proj1 (Forall_forall _ _) P2 o Ho).
-      * cbn [fst]. rewrite <- P4. rewrite P1.
+      * cbn [fst]. rewrite <- P4. rewrite P1. rewrite (printable_id _ (own_props_all body)).
         destruct (own_props body ++ blocks) as [|x l] eqn:E.
         -- apply app_eq_nil in E as [E1 E2]. rewrite E1, E2. reflexivity.
         -- cbn [length Nat.eqb flat_map groups]. rewrite groups_go, app_nil_r, map_app. destruct (own_props body); reflexivity.
@@ -304,21 +301,21 @@ Proof.
       assert (p' = parent) as Hp' by (unfold p'; now rewrite Hsc). rewrite Hp' in *. cbv zeta.
       destruct (media_name_head parent sel Hmedia) as (rest & Hme). fold me in Hme.
       assert (flat_map (fun mb => match mb with
-                | OBlock mname mprops minner => if Nat.eqb (length (mprops ++ minner)) 0 then [] else [OBlock (merge_media (ONIdent true me) mname) mprops minner]
+                | OBlock mname mprops minner => if Nat.eqb (length (printable mprops ++ minner)) 0 then [] else [OBlock (merge_media (ONIdent true me) mname) mprops minner]
                 | _ => [] end) medias = flat_map (merge_into (ONIdent true me)) medias) as -> by reflexivity.
       assert (exists rest0, ONIdent true me = ONIdent true [$"@media" :: rest0]) as Hname by (exists rest; now rewrite Hme).
       destruct (flat_map_merge (ONIdent true me) medias (psel parent) Hname P3) as (W1 & W2).
       eexists. split; [reflexivity|]. cbn [node_result].
-      exists [], ((if Nat.eqb (length (props ++ blocks)) 0 then [] else [OBlock (ONIdent true me) props blocks])
+      exists [], ((if Nat.eqb (length (printable props ++ blocks)) 0 then [] else [OBlock (ONIdent true me) props blocks])
                   ++ flat_map (merge_into (ONIdent true me)) medias).
       rewrite Hmf. split; [reflexivity|]. split; [constructor|]. split; [|split; [reflexivity|]].
       * apply Forall_app. split; [|exact W1].
-        destruct (props ++ blocks) as [|x l] eqn:E; [constructor|]. cbn [length Nat.eqb]. constructor; [|constructor].
+        rewrite P1, (printable_id _ (own_props_all body)), <- P1. destruct (props ++ blocks) as [|x l] eqn:E; [constructor|]. cbn [length Nat.eqb]. constructor; [|constructor].
         rewrite Hme. cbn [media_nf]. rewrite P1, own_props_all. cbn [andb str_eqb].
         replace (str_eqb $"@media" $"@media") with true by reflexivity. cbn [andb].
         apply forallb_forall. intros o Ho. exact (proj1 (Forall_forall _ _) P2 o Ho).
       * cbn [snd]. rewrite flat_map_app, W2, P5, <- P4, settag_untagged. rewrite app_assoc. f_equal.
-        rewrite P1.
+        rewrite P1. rewrite (printable_id _ (own_props_all body)).
         destruct (own_props body ++ blocks) as [|x l] eqn:E.
         -- apply app_eq_nil in E as [E1 E2]. rewrite E1, E2. reflexivity.
         -- cbn [length Nat.eqb flat_map mgroups_media]. rewrite app_nil_r. destruct (own_props body); reflexivity.
